@@ -170,6 +170,19 @@ func genBase(r *lib.Rng, nconn int, concrete bool, clean bool) *base {
 				o.Kind = 4
 			}
 		}
+		// 1 in 10: a lambda any -> any added WithInputKey and / or WithOutputKey: the side with a key has
+		// the declared type map[string]any (no state handlers on such nodes)
+		if r.Chance(1, 10) {
+			switch kk := r.Intn(3); {
+			case kk == 0 && !concrete:
+				o.Kind, o.In, o.Out = 5, "M", "any"
+			case kk == 1 && !concrete:
+				o.Kind, o.In, o.Out = 6, "any", "M"
+			default:
+				o.Kind, o.In, o.Out = 7, "M", "M"
+			}
+			o.Pre, o.Post = nil, nil
+		}
 		b.nodes = append(b.nodes, o)
 		cur = o.Out
 	}
@@ -593,7 +606,7 @@ func genPendingCluster(r *lib.Rng) *Case {
 // edge between START/END, between two lambdas, through a passthrough node, at a branch
 // condition, at a branch typing its passthrough start node; type identity at a state
 // handler; the converter behind the any-typed state handler of a passthrough node), as the smallest graph that has it.
-const pairShapes = 7
+const pairShapes = 9
 
 func genPair(i int) *Case {
 	n := len(allTypes)
@@ -654,6 +667,16 @@ func genPair(i int) *Case {
 		}
 		add(Op{K: "edge", S: 0, E: 2})
 		add(Op{K: "edge", S: 2, E: 1})
+	case 7: // START:a -> n2 (a lambda any -> any added WithInputKey: its declared input type is map[string]any) -> END:b
+		add(Op{K: "node", Key: 2, In: "M", Out: "any", Kind: 5})
+		add(Op{K: "edge", S: 0, E: 2})
+		add(Op{K: "edge", S: 2, E: 1})
+	case 8: // START:a -> n2 (any -> any WithOutputKey: declared output type map[string]any) -> P -> END:b
+		add(Op{K: "node", Key: 2, In: "any", Out: "M", Kind: 6})
+		add(Op{K: "pass", Key: 3})
+		add(Op{K: "edge", S: 0, E: 2})
+		add(Op{K: "edge", S: 2, E: 3})
+		add(Op{K: "edge", S: 3, E: 1})
 	}
 	add(Op{K: "compile"})
 	return c
